@@ -519,15 +519,15 @@ type Case6 struct {
 
 // Op6: K in solicit request renew rebind confirm release decline advance.
 type Op6 struct {
-	K     string `json:"k"`
-	C     int    `json:"c,omitempty"`
-	NA    bool   `json:"na,omitempty"`
-	PD    bool   `json:"pd,omitempty"`
-	Flag  bool   `json:"flag,omitempty"` // solicit: rapid commit; request: server-id is ours
-	Sym   string `json:"sym,omitempty"`  // confirm: own other out none (generation only)
-	HasA  bool   `json:"hasa,omitempty"`
-	Addr  string `json:"addr,omitempty"` // confirm: address (decimal 128-bit)
-	D     int    `json:"d,omitempty"`
+	K    string `json:"k"`
+	C    int    `json:"c,omitempty"`
+	NA   bool   `json:"na,omitempty"`
+	PD   bool   `json:"pd,omitempty"`
+	Flag bool   `json:"flag,omitempty"` // solicit: rapid commit; request: server-id is ours
+	Sym  string `json:"sym,omitempty"`  // confirm: own other out none (generation only)
+	HasA bool   `json:"hasa,omitempty"`
+	Addr string `json:"addr,omitempty"` // confirm: address (decimal 128-bit)
+	D    int    `json:"d,omitempty"`
 }
 
 var (
@@ -543,7 +543,7 @@ func nOf(ip net.IP) string     { return bigOf(ip).String() }
 
 func openSockets6() {
 	var err error
-	for i := 0; i < 100; i++ { // another check may hold the port for a moment
+	for i := 0; i < 1500; i++ { // another C02 run may hold the port for a while
 		recv6, err = net.ListenUDP("udp4", peer6)
 		if err == nil {
 			break
@@ -997,7 +997,7 @@ func main() {
 	var x4, x6 []vh.Case
 	d4, d6, n4, n6, maxOps := 3, 3, 400, 300, 40
 	if cfg.Thorough() {
-		d4, d6, n4, n6, maxOps = 4, 4, 6000, 5000, 60
+		d4, d6, n4, n6, maxOps = 4, 4, 3000, 2500, 60
 	}
 	p4, p6 := pools4(), pools6()
 	add4 := func(c Case4) { x4 = append(x4, run4(c)) }
@@ -1011,12 +1011,10 @@ func main() {
 		enum6(p6[0], alphabet6(2, true), 2, add6)
 	} else {
 		enum4(p4[0], alphabet4(2, true), 3, add4)  // 23^3
-		enum4(p4[0], alphabet4(2, false), 4, add4) // 14^4
-		enum4(p4[2], alphabet4(2, false), 3, add4)
+		enum4(p4[2], alphabet4(2, false), 3, add4) // 14^3
 		enum4(p4[1], alphabet4(3, false), 3, add4) // 20^3
 		enum6(p6[0], alphabet6(2, true), 3, add6)  // 20^3
-		enum6(p6[0], alphabet6(2, false), 4, add6) // 11^4
-		enum6(p6[1], alphabet6(3, false), 3, add6)
+		enum6(p6[1], alphabet6(3, false), 3, add6) // 16^3
 	}
 	ex := map[string]interface{}{"exhaustive": true, "note": "every op sequence of the stated depth over the stream's alphabet"}
 	vh.Emit(cfg, "dhcp4x", header4, footer4, x4, ex)
